@@ -66,6 +66,7 @@ pub fn xml_profile(max_nodes: usize, known_only: bool, text: TextMode) -> Forest
         deep_weight: 1,
         types: vals::xml_types(),
         known_classes: true,
+        all_db_classes: false,
         unknown_classes: !known_only,
         alias_names: true,
         unknown_props: !known_only,
